@@ -71,7 +71,7 @@ m = {
     ],
     "checks": claimed,
     "not_applicable": na,
-    "notes": "All checks are static (no repository code is executed; mypy type-checks it, ast parses it). Known genuine findings are listed in /verif/known_findings.json (2 open: C12 DRAIN-1, C15 INPLACE-1; 20 fix commits, 21 fixed entries). quick = rules on /repo + one combined canary tree; thorough = + the property's slice of the mutation matrix (174 breaking + 20 preserving variants + 353 independently seeded breaking patches + 9 refactoring-plus-break variants + 269 behaviour-preserving refactorings written by independent sub-agents; the full matrix (tools/run_mutants.py --all) additionally replays 8 seeded defects on which the target check must end as an analysis error, never as a pass, and 24 refactorings outside the modelled shapes on which no check may refute) + prune-off escape comparison.",
+    "notes": "All checks are static (no repository code is executed; mypy type-checks it, ast parses it). Known genuine findings are listed in /verif/known_findings.json (2 open: C12 DRAIN-1, C15 INPLACE-1; 20 fix commits, 21 fixed entries). quick = rules on /repo + one combined canary tree; thorough = + the property's slice of the mutation matrix (174 breaking + 20 preserving variants + 353 independently seeded breaking patches + 9 refactoring-plus-break variants + 273 behaviour-preserving refactorings written by independent sub-agents; the full matrix (tools/run_mutants.py --all) additionally replays 8 seeded defects on which the target check must end as an analysis error, never as a pass, and 20 refactorings outside the modelled shapes on which no check may refute) + prune-off escape comparison.",
 }
 json.dump(m, open(os.path.join(HERE, "MANIFEST.json"), "w"), indent=1)
 print("claimed:", [c["property_id"] for c in claimed])
